@@ -15,7 +15,8 @@ def op_term(o):
     elif k == "random":
         t = "MRandom (%d)" % o.get("size", 0)
     elif k == "with":
-        t = "MWith %d %s" % (o.get("depth", 0), b(o.get("err", False)))
+        # a callback that panics leaves WithBytes like one that returns an error (the release is deferred): same model step
+        t = "MWith %d %s" % (o.get("depth", 0), b(o.get("err", False) or o.get("panic", False)))
     elif k == "close":
         t = "MClose"
     else:
@@ -49,6 +50,8 @@ def run(ck, prop, tier, seed, replay):
     for c in cases:
         if c["impl"] != "protectedmemory" or not c["ops"] or c["ops"][0]["k"] not in ("new", "random"):
             continue
+        if any(o["k"] == "withclose" for o in c["ops"]):     # two goroutines: judged by the harness monitor, the sequential model does not apply
+            continue
         n = len(c["ops"]) if c["obs"][0]["r"] == 0 else 1
         cmp_cases.append((c, n))
     terms = ["([%s], [%s])" % ("; ".join(op_term(o) for o in c["ops"][:n]), "; ".join(obs_term(o) for o in c["obs"][:n])) for c, n in cmp_cases]
@@ -61,10 +64,12 @@ def run(ck, prop, tier, seed, replay):
     nt = set(json.dumps([c["impl"], c["ops"]]) for c in cases if any(o.get("plan") for o in c["ops"]) or sum(1 for o in c["obs"] if o["r"] == 0) >= 3)
     ck.cov.update({
         "evaluations": len(cases), "distinct_nontrivial": len(nt),
-        "rule": "per case one secret: New/CreateRandom (sizes 0,1,2,8,16,31,32), then WithBytes nested 0-2 deep (callback ok / failing), Close, IsClosed, "
+        "rule": "per case one secret: New/CreateRandom (sizes 0,1,2,8,16,31,32), then WithBytes nested 0-2 deep (callback ok / failing / panicking), Close, IsClosed, "
+                "one case in 7.5 ends with a Close arriving while a reader is inside (with a fault on the reader's release / access / the close); "
                 "final Close + access; both implementations over an interposed memcall that is a shadow page table"
                 + ("; fault plans = 1-2 failing primitive indices per op (random) and ALL singles and pairs over creation x follow-up access x close (sweep)" if prop == "C12" else "")
                 + "; non-trivial = distinct sequence with a fault plan or >= 3 successful operations",
+        "close_while_reading_cases": sum(1 for c in cases if any(o["k"] == "withclose" for o in c["ops"])),
         "implementations": {k: sum(1 for c in cases if c["impl"] == k) for k in ("protectedmemory", "memguard")},
         "traces_validated_against_impl": len(cmp_cases) - len(bad), "samples": [cases[0], cases[2]],
     })
